@@ -33,6 +33,7 @@ fn main() {
         }
         "probe" => probe::run(&args[2]),
         "probe-compile" => probe::compile(&args[2]),
+        "probe-roundtrip" => probe::roundtrip(&args[2]),
         "fuzz-corpus" => {
             // tx3v fuzz-corpus <target> <dir>: small valid seeds for a libFuzzer campaign
             let dir = &args[3];
